@@ -35,3 +35,124 @@ Theorem C16_appendable_metadata_getters_total :
     (appmd_get_bool b k <> Panic /\ appmd_get_bool b k <> Err EFuel).
 Proof. exact appmd_getters_safe. Qed.
 Print Assumptions C16_appendable_metadata_getters_total.
+
+(* ------------------------------------------------------------------------------------------ *)
+(* PostgreSQL wire protocol (pkg/pgsql/server): Wire/PgMsg.v over the bufio.Reader model Wire/Bufio.v.
+   A parser result is (outcome, bytes asked from the allocator).                               *)
+From V Require Import Wire.Alloc Wire.Bufio Wire.PgMsg Wire.PgMsgTotal Wire.AllocProofs.
+
+(* For EVERY type byte and EVERY payload, session.parseRawMessage (Bind / Parse / Execute /
+   Describe / Query / PasswordMessage / Copy* / Sync / Flush / Terminate) returns a message or an
+   error: no slice or index expression panics, bufio never "fills a full buffer", and the
+   ReadBytes loops end within their fuel. Holds for the code as found and for the repaired code. *)
+Theorem C16_pg_messages_total :
+  forall (fixed : bool) (maxmsg t : N) (payload : bytes),
+    fst (pg_dispatch fixed maxmsg t payload) <> Panic /\
+    fst (pg_dispatch fixed maxmsg t payload) <> Err EFuel.
+Proof. exact pg_dispatch_safe. Qed.
+Print Assumptions C16_pg_messages_total.
+
+(* Memory, code as found: whatever the outcome, a message parser allocates at most
+   2 * MaxMsgSize + 21 * |payload| + 131088 bytes ... *)
+Theorem C16_pg_messages_memory_partial :
+  forall (maxmsg t : N) (payload : bytes),
+    snd (pg_dispatch false maxmsg t payload) <= 2 * maxmsg + 21 * len payload + 131088.
+Proof. exact pg_dispatch_alloc. Qed.
+Print Assumptions C16_pg_messages_memory_partial.
+
+(* ... and the MaxMsgSize term is real: an 11-byte Bind message makes ParseBindMsg allocate 64 MiB
+   (a 32 MiB parameter value and its string copy) before rejecting the message. *)
+Theorem C16_pg_bind_memory_refuted :
+  exists p : bytes, len p <= 11 /\
+    64 * 1048576 <= snd (bind_parse false (32 * 1048576) p) /\
+    is_ok (fst (bind_parse false (32 * 1048576) p)) = false.
+Proof. exact bind_alloc_refuted. Qed.
+Print Assumptions C16_pg_bind_memory_refuted.
+
+(* Memory, repaired code (parameter length checked against what is left of the message): linear
+   in the payload length, independent of MaxMsgSize. The constant is two int16 count fields
+   (make([]int16, n) with n <= 32767, twice) plus the reader. *)
+Theorem C16_pg_messages_memory_fixed :
+  forall (maxmsg t : N) (payload : bytes),
+    snd (pg_dispatch true maxmsg t payload) <= 21 * len payload + 131088.
+Proof. exact pg_dispatch_fixed_alloc. Qed.
+Print Assumptions C16_pg_messages_memory_fixed.
+
+(* Framing (messageReader.ReadRawMessage) on a connection that delivers the bytes conn and then
+   EOF: never panics; the length field is validated before the payload buffer is made, which
+   therefore is at most MaxMsgSize (+5): a bound by the configured limit, not by the input (the
+   buffer is made before the payload arrives); a returned message accounts for exactly the bytes
+   taken from the connection. *)
+Theorem C16_pg_framing_total_and_memory :
+  forall (maxmsg : N) (conn : bytes),
+    (fst (raw_read maxmsg conn) <> Panic /\ fst (raw_read maxmsg conn) <> Err EFuel) /\
+    snd (raw_read maxmsg conn) <= 5 + maxmsg mod 4294967296 /\
+    (forall t payload rest, fst (raw_read maxmsg conn) = Ok (t, payload, rest) ->
+       snd (raw_read maxmsg conn) = 5 + len payload /\ len conn = 5 + len payload + len rest).
+Proof. exact raw_read_safe. Qed.
+Print Assumptions C16_pg_framing_total_and_memory.
+
+(* ------------------------------------------------------------------------------------------ *)
+(* pkg/stream receivers: Wire/Stream.v. A stream is a LIST OF CHUNKS followed by io.EOF or a
+   transport error, so "for every stream" is "for every byte string and every way of cutting it
+   into gRPC chunks". bs is the buffer (chunk) size of the receiving side.                       *)
+From V Require Import Wire.Stream Wire.StreamTotal.
+
+(* Code as found: a single 8-byte chunk announcing a message length with the top bit set makes
+   msgReceiver.Read panic (make([]byte, negative)) -- and with it the key/value, sorted-set,
+   verifiable-entry and exec-all receivers of the server's streaming RPCs. *)
+Theorem C16_stream_read_refuted :
+  exists s : strm, len (concat (s_chunks s)) = 8 /\
+    fst (mr_read false 8 (mr_new s)) = Panic /\ fst (kv_next false 8 (mr_new s)) = Panic.
+Proof. exact mr_read_refuted. Qed.
+Print Assumptions C16_stream_read_refuted.
+
+(* Code as found: ReadFully (streamed ReplicateTx / ExportTx) panics on the same chunk, and a
+   12-byte chunk announcing 256 MiB makes it allocate 256 MiB before reporting a short stream. *)
+Theorem C16_stream_readfully_refuted :
+  fst (read_fully false st_witness_neg) = Panic /\
+  (exists s : strm, len (concat (s_chunks s)) = 12 /\ 268435456 <= snd (read_fully false s) /\
+                    is_ok (fst (read_fully false s)) = false).
+Proof. exact read_fully_refuted. Qed.
+Print Assumptions C16_stream_readfully_refuted.
+
+(* What holds for the code as found (fixed = false) and in full for the repaired code
+   (fixed = true), for EVERY stream s and buffer size: Read and the typed receivers' Next never run
+   out of fuel (their loops end: every iteration consumes a chunk or a byte), with fixed = true
+   never panic, and allocate at most twice the bytes of the stream plus a constant in the buffer
+   size per value read (W bs = 5 bs + 8); the exec-all receiver, which skips unknown operations,
+   pays that constant once per byte at worst. *)
+Theorem C16_stream_receivers_total :
+  forall (fixed : bool) (bs : N) (s : strm),
+    bs <= 281474976710656 ->
+    let L := len (concat (s_chunks s)) in
+    let total {A} (m : M A) (bound : N) :=
+      fst m <> Err EFuel /\ (fixed = true -> fst m <> Panic) /\ snd m <= bound in
+    total (mr_read fixed bs (mr_new s)) (8 + bs) /\
+    total (kv_next fixed bs (mr_new s)) (2 * L + (5 * bs + 8)) /\
+    total (z_next fixed bs (mr_new s)) (2 * L + 4 * (5 * bs + 8) + 16) /\
+    total (ventry_next fixed bs (mr_new s)) (2 * L + 3 * (5 * bs + 8)) /\
+    total (execall_next fixed bs (mr_new s)) ((L + 2) * (5 * bs + 8) + 2 * L).
+Proof. exact stream_fresh_total. Qed.
+Print Assumptions C16_stream_receivers_total.
+
+(* The same for a receiver in ANY state that keeps the invariant 0 <= s <= tl (every state reached
+   from a fresh receiver does: it is part of the read theorems), i.e. for the 2nd, 3rd, ... value
+   of a stream: ReadValue on such a state. *)
+Theorem C16_stream_read_value_total :
+  forall (fixed : bool) (bs : N) (r : mrecv),
+    (0 <= mr_sz r <= mr_tl r)%Z -> bs <= 281474976710656 ->
+    fst (read_value fixed bs r) <> Err EFuel /\
+    (fixed = true -> fst (read_value fixed bs r) <> Panic) /\
+    snd (read_value fixed bs r) <= 2 * mr_avail r + (5 * bs + 8).
+Proof. exact read_value_total. Qed.
+Print Assumptions C16_stream_read_value_total.
+
+(* Repaired ReadFully: for every stream, no panic, and the memory it asks for is at most the
+   number of bytes the stream delivered. *)
+Theorem C16_stream_readfully_fixed_total :
+  forall s : strm,
+    fst (read_fully true s) <> Err EFuel /\ (true = true -> fst (read_fully true s) <> Panic) /\
+    snd (read_fully true s) <= len (concat (s_chunks s)).
+Proof. exact read_fully_fixed_total. Qed.
+Print Assumptions C16_stream_readfully_fixed_total.
